@@ -122,7 +122,12 @@ class _Shape(ast.NodeTransformer):
         self.prefix = q + '.'
         if is_func:
             self.tests = self.ref_tests.get(q, ())
+            if not hasattr(self, 'funcs'):
+                self.funcs = []
+            self.funcs.append(node)
         node = self.generic_visit(node)
+        if is_func:
+            self.funcs.pop()
         self.prefix, self.tests = saved
         return node
 
@@ -177,6 +182,57 @@ class _Shape(ast.NodeTransformer):
                     continue
             out.append(st)
             i += 1
+        return out
+
+    def visit_For(self, node):
+        """a loop over a literal table of tuples - `for a, b in ((1, X), (2, Y)): body` - is its body once per row, with the row's
+        constants in place of the loop variables (rows hold only constants and dotted names the body does not assign)"""
+        self.generic_visit(node)
+        import copy
+        it, tg = node.iter, node.target
+        if node.orelse or not isinstance(it, (ast.Tuple, ast.List)) or not (2 <= len(it.elts) <= 6) or len(node.body) > 3:
+            return node
+        names = [e.id for e in tg.elts] if isinstance(tg, ast.Tuple) and all(isinstance(e, ast.Name) for e in tg.elts) else None
+        if not names:
+            return node
+        fn = self.funcs[-1] if getattr(self, 'funcs', None) else None
+        if fn is None:
+            return node
+        inside = set(id(x) for x in ast.walk(node))
+        if any(isinstance(x, ast.Name) and x.id in names and id(x) not in inside for x in ast.walk(fn)):
+            return node     # the loop variables are used outside the loop as well
+        rows = []
+        for r in it.elts:
+            cells = [r] if isinstance(tg, ast.Name) else (list(r.elts) if isinstance(r, (ast.Tuple, ast.List)) and len(r.elts) == len(names) else None)
+            if cells is None or not all(isinstance(c, ast.Constant) or (_plain(c) and not isinstance(c, ast.Subscript)) for c in cells):
+                return node
+            rows.append(cells)
+        inner = [x for st in node.body for x in ast.walk(st)]
+        if any(isinstance(x, (ast.Break, ast.Continue) + SCOPES) or isinstance(x, COMPS) for x in inner):
+            return node
+        assigned = set(x.id for x in inner if isinstance(x, ast.Name) and isinstance(x.ctx, (ast.Store, ast.Del)))
+        roots = set()
+        for cells in rows:
+            for c in cells:
+                for x in ast.walk(c):
+                    if isinstance(x, ast.Name):
+                        roots.add(x.id)
+        if assigned & (set(names) | roots):
+            return node
+        # the loop variables must not be read after the loop (they would keep the last row's values): only safe when the body's every path is
+        # self-contained; accept when no statement after the loop in the same function reads them - approximated by requiring fresh, loop-only names
+        out = []
+        for cells in rows:
+            sub = dict(zip(names, cells))
+
+            class _S(ast.NodeTransformer):
+                def visit_Name(s_, n):
+                    if isinstance(n.ctx, ast.Load) and n.id in sub:
+                        return ast.copy_location(copy.deepcopy(sub[n.id]), n)
+                    return n
+            for st in node.body:
+                out.append(_S().visit(copy.deepcopy(st)))
+        self._unrolled = getattr(self, '_unrolled', 0) + 1
         return out
 
     def visit_With(self, node):
@@ -253,6 +309,20 @@ class _Shape(ast.NodeTransformer):
             c.ops = [_NEG[type(c.ops[0])]()]
             return c
         return node
+
+
+def _tuple_ifexp(v):
+    """index of the single conditional element of a tuple display whose other elements are constants / plain names (so that choosing the
+    arm first and building the tuple afterwards evaluates the same things in an order nobody can observe), else None"""
+    if not isinstance(v, ast.Tuple):
+        return None
+    idx = [k for k, e in enumerate(v.elts) if isinstance(e, ast.IfExp)]
+    if len(idx) != 1:
+        return None
+    for k, e in enumerate(v.elts):
+        if k != idx[0] and not (isinstance(e, ast.Constant) or _plain(e)):
+            return None
+    return idx[0]
 
 
 SCOPES = (ast.FunctionDef, ast.AsyncFunctionDef, ast.Lambda, ast.ClassDef)
@@ -1256,6 +1326,8 @@ def _candidates_all(f, ref_assigns=(), ref_locals=(), changed=None, ref_params=N
                 yield ('ifexp_to_stmt', bi, i)
             if isinstance(st, ast.Return) and isinstance(st.value, ast.IfExp):
                 yield ('ifexp_to_stmt', bi, i)
+            if isinstance(st, (ast.Return, ast.Assign)) and _tuple_ifexp(st.value) is not None and (isinstance(st, ast.Return) or (len(st.targets) == 1 and _plain(st.targets[0]))):
+                yield ('ifexp_to_stmt', bi, i)
             if isinstance(st, ast.If) and st.orelse and len(st.body) == 1 and len(st.orelse) == 1:
                 x, y = st.body[0], st.orelse[0]
                 if isinstance(x, ast.Assign) and isinstance(y, ast.Assign) and len(x.targets) == 1 and len(y.targets) == 1 \
@@ -1772,10 +1844,19 @@ def _apply(f, cand, ref_assigns=()):
             arm.append(ast.Pass())
     elif kind == 'ifexp_to_stmt':
         e = st.value
+        wrap = lambda v: v
+        k = _tuple_ifexp(e) if not isinstance(e, ast.IfExp) else None
+        if k is not None:
+            tup, e = e, e.elts[k]
+
+            def wrap(v, tup=tup, k=k):
+                t2 = _copy.deepcopy(tup)
+                t2.elts[k] = v
+                return t2
         if isinstance(st, ast.Assign):
-            mk = lambda v: ast.Assign(targets=_copy.deepcopy(st.targets), value=v)
+            mk = lambda v: ast.Assign(targets=_copy.deepcopy(st.targets), value=wrap(v))
         else:
-            mk = lambda v: ast.Return(value=v)
+            mk = lambda v: ast.Return(value=wrap(v))
         b[i] = ast.If(test=e.test, body=[mk(e.body)], orelse=[mk(e.orelse)])
     elif kind == 'stmt_to_ifexp':
         x, y = st.body[0], st.orelse[0]
